@@ -149,3 +149,33 @@ Proof.
   - rewrite in_app_iff. intros [H|H]; [contradiction|]. exact (Hd x (or_introl eq_refl) H).
   - apply IH; [exact Hb|]. intros y Hy. apply Hd. right. exact Hy.
 Qed.
+
+(** ** facts used by the soundness lemmas of the check predicates *)
+Lemma keys_del_NoDup {K V} `{EqDec K} (k : K) (m : amap K V) : NoDup (keys m) -> NoDup (keys (del k m)).
+Proof.
+  unfold keys. induction m as [|[k0 v0] m IH]; simpl; intros Hnd; [constructor|].
+  inversion Hnd as [|? ? Hn Hnd']; subst. destruct (eq_dec k k0) as [->|Hne]; [auto|]. simpl.
+  constructor; [|auto]. intros Hin. apply Hn. clear - Hin. induction m as [|[k1 v1] m IH]; simpl in *; [exact Hin|].
+  destruct (eq_dec k k1); simpl in *; tauto.
+Qed.
+
+Lemma In_get {K V} `{EqDec K} (k : K) (v : V) (m : amap K V) : NoDup (keys m) -> In (k, v) m -> get k m = Some v.
+Proof.
+  unfold keys. induction m as [|[k0 v0] m IH]; simpl; intros Hnd Hin; [contradiction|].
+  inversion Hnd as [|? ? Hn Hnd']; subst. destruct Hin as [Heq|Hin].
+  - inversion Heq; subst. destruct (eq_dec k k); [reflexivity|congruence].
+  - destruct (eq_dec k k0) as [->|Hne]; [|auto]. exfalso. apply Hn. apply in_map_iff. exists (k0, v). auto.
+Qed.
+
+Lemma get_map_val {K V W} `{EqDec K} (f : V -> W) (k : K) (m : amap K V) :
+  get k (map (fun kv => (fst kv, f (snd kv))) m) = option_map f (get k m).
+Proof.
+  induction m as [|[k0 v0] m IH]; simpl; [reflexivity|]. destruct (eq_dec k k0); [reflexivity|exact IH].
+Qed.
+
+Lemma nodupb_NoDup {A} `{EqDec A} (l : list A) : NoDup l -> nodupb l = true.
+Proof.
+  induction 1 as [|x l Hn Hnd IH]; simpl; [reflexivity|]. rewrite IH, andb_true_r. apply negb_true_iff.
+  destruct (existsb (fun y => eqb x y) l) eqn:E; [|reflexivity]. exfalso. apply existsb_exists in E.
+  destruct E as (y & Hy & Hxy). apply (proj1 (eqb_true_iff _ _)) in Hxy. subst. contradiction.
+Qed.
